@@ -29,7 +29,7 @@ From Coq Require Import List Arith Bool ZArith Lia.
 Import ListNotations.
 Require Import Yui.Model.Link Yui.Model.Tng Yui.Model.TngCob Yui.Model.TngStack Yui.Model.TngComplex.
 Require Import Yui.Proofs.TngPElim Yui.Proofs.TngPElimMat Yui.Proofs.TngPElimEx Yui.Proofs.TngPCpx Yui.Proofs.TngPCpxSem
-  Yui.Proofs.TngPCpxScalar.
+  Yui.Proofs.TngPCpxScalar Yui.Proofs.TngPCpxInv.
 
 Local Notation "f =~ g" := (peq _ f g) (at level 70, no associativity).
 Local Notation "f +' g" := (padd _ f g) (at level 50, left associativity).
@@ -302,6 +302,23 @@ Theorem C01_cpx_eliminate_dd_scalar : forall c k0 k1 c',
 Proof. exact eliminate_dd_scalar. Qed.
 Print Assumptions C01_cpx_eliminate_dd_scalar.
 
+(* the whole elimination phase.  [cpx_wf vs]: the keys are distinct, in_edges records every edge, every edge raises the
+   weight of the state by one (the homological grading), every edge is scalar;  [cpx_dd vs]: sum_m zentry(m, y) *
+   zentry(x, m) = 0 for all vertices x, y.  Both are preserved by every returning eliminate step (the side conditions
+   k0 <> k1 and "no loops" of the theorem above follow from the grading), hence by every sequence of such steps
+   ([eliminate_all c steps] runs eliminate along a list of pairs): *)
+Theorem C01_cpx_eliminate_wf : forall c k0 k1 c',
+  cpx_eliminate c k0 k1 = Some c' -> cpx_wf (c_verts c) -> cpx_dd (c_verts c) ->
+  cpx_wf (c_verts c') /\ cpx_dd (c_verts c').
+Proof. exact eliminate_wf_dd. Qed.
+Print Assumptions C01_cpx_eliminate_wf.
+
+Theorem C01_cpx_eliminate_all : forall steps c c',
+  eliminate_all c steps = Some c' -> cpx_wf (c_verts c) -> cpx_dd (c_verts c) ->
+  cpx_wf (c_verts c') /\ cpx_dd (c_verts c').
+Proof. exact eliminate_all_wf_dd. Qed.
+Print Assumptions C01_cpx_eliminate_all.
+
 (* ================================================================================================== *)
 (* examples (non-vacuity), by computation in the model                                                  *)
 (* ================================================================================================== *)
@@ -352,6 +369,24 @@ Proof.
   split; [apply nodup_b_sound; vm_compute; reflexivity|].
   split; [discriminate|]. split; [vm_compute; reflexivity|]. split; [vm_compute; reflexivity|].
   apply dd_b_sound. vm_compute. reflexivity.
+Qed.
+
+(* that complex is well formed with d d = 0, and three further eliminate steps (all that are possible) return: the
+   result has the four generators of the Khovanov homology of the Hopf link and no edges *)
+Example C01_cpx_example_wf :
+  exists c c',
+    ex_hopf = Some c /\ cpx_wf (c_verts c) /\ cpx_dd (c_verts c) /\
+    eliminate_all c [(K [false; false] [true; false], K [false; true] [false]);
+                     (K [true; false] [true], K [true; true] [true; false]);
+                     (K [true; false] [false], K [true; true] [false; false])] = Some c' /\
+    map vkey (c_verts c') = [K [false; false] [false; false]; K [false; false] [false; true];
+                             K [true; true] [true; true]; K [true; true] [false; true]] /\
+    forallb (fun v => is_nil (vout v)) (c_verts c') = true.
+Proof.
+  eexists. eexists. split; [vm_compute; reflexivity|].
+  split; [apply cpx_wf_check; vm_compute; reflexivity|].
+  split; [unfold cpx_dd; apply dd_b_sound; vm_compute; reflexivity|].
+  split; [vm_compute; reflexivity|]. vm_compute. split; reflexivity.
 Qed.
 
 (* the hypotheses on the interpretation are consistent: the zero category (one morphism between any two objects)
